@@ -5,6 +5,14 @@
    non-reproducing counterexamples on string code (``(s + 'a')[:-1] == s``).
    Re-bound to the element-wise ``SeqBase.__eq__``.
 
+2. ``sequence_evaluation`` (used by ``ShellMutableSequence.extend`` and friends)
+   passes every *hashable* argument through as if it were an immutable
+   sequence; generators and other iterators are hashable, so
+   ``lst.extend(<generator>)`` on a wrapped list stores the generator itself and
+   later fails with "object of type 'generator' has no len()" - an exception the
+   concrete run never raises (seen with a MemoryStore variant growing its tables
+   with ``extend``).  Iterators are now materialised.
+
 The lemma self-tests in :mod:`vp.props.ENGINE` must confirm (and their
 negations be refuted) before any verdict of a run is believed.
 """
@@ -18,4 +26,15 @@ def apply():
     if _applied:
         return
     simplestructs.SequenceConcatenation.__eq__ = simplestructs.SeqBase.__eq__
+    import collections.abc
+    from crosshair.tracers import NoTracing
+    orig = simplestructs.sequence_evaluation
+
+    def sequence_evaluation(seq):
+        with NoTracing():
+            lazy = isinstance(seq, collections.abc.Iterator) or not isinstance(seq, collections.abc.Sized)
+        if lazy:
+            return list(seq)
+        return orig(seq)
+    simplestructs.sequence_evaluation = sequence_evaluation
     _applied = True
